@@ -102,7 +102,7 @@ pub struct Inst {
 /// (E5 uses it: an old instance whose teardown takes a while is legitimate user code).
 pub type Tail = Option<Box<dyn Any + Send + Sync>>;
 
-pub struct Ty<const N: u8>(pub Inst, pub Tail);
+pub struct Ty<const N: u8>(pub Inst, #[allow(dead_code)] pub Tail);
 
 pub trait TrA: Send + Sync {
   fn inst(&self) -> &Inst;
@@ -113,7 +113,7 @@ pub trait TrB: Send + Sync {
   fn imp_type(&self) -> u8;
 }
 /// two impl types for each trait, so that a trait key can be re-registered with another impl
-pub struct Im<const K: u8>(pub Inst, pub Tail);
+pub struct Im<const K: u8>(pub Inst, #[allow(dead_code)] pub Tail);
 impl<const K: u8> TrA for Im<K> {
   fn inst(&self) -> &Inst {
     &self.0
